@@ -63,6 +63,9 @@ MonthS(e) ==
   /\ Ck("EatenWithinOffered", Le(e.feedEaten, e.feedOffered))
   /\ Ck("FinalHerdOnRound2Feed", hb.round # 3 \/ Le(e.feedOffered, e.feedRound2))
   /\ Ck("GrassWithin", NonNeg(e.grassEaten) /\ Le(e.grassEaten, e.grass))
+  \* the grass on offer follows the documented calendar: the first month's amount times the disruption ratio of the month's model
+  \* year over that of year 1 (8 months, then twelve-month years, the last one sixteen months long)
+  /\ Ck("GrassAsScheduled", Eq(Mul(e.grass, e.ratio1), Mul(e.grass0, e.ratioYear)))
   /\ Ck("FeedEatenNonNeg", NonNeg(e.feedEaten))
   /\ hmon' = hmon + 1
   /\ meatOffered' = Add(meatOffered, e.meat) /\ meatDerived' = Add(meatDerived, derived)
